@@ -42,7 +42,7 @@ def canon_json(obj) -> bytes:
 
 
 def apply_variant(desc, vid):
-    d = copy.deepcopy(desc)
+    d = copy.deepcopy({k: v for k, v in desc.items() if k != 'variants'})
     for path, value in (desc.get('variants') or {}).get(vid, []) if vid is not None else []:
         cur = d
         for p in path[:-1]:
